@@ -7,6 +7,7 @@
 From Coq Require Import List String Bool Arith Permutation.
 From Pebbles Require Import Base.Json Exec.Scrub Exec.ScrubProofs Net.Errors Net.ErrorsProofs
      Net.BatchResp Net.BatchRespProofs Base.ListX Net.Batch Net.BatchProofs Exec.Dedup Exec.DedupProofs.
+From Pebbles Require Merge.Model Plan.Sanitize Plan.SanitizeProofs.
 Import ListNotations.
 Open Scope string_scope.
 
@@ -67,6 +68,15 @@ Proof.
   rewrite H, H'. split; intros (x & Hx & Hu); exists x; split; auto; [eapply Permutation_in; eauto|eapply Permutation_in; [apply Permutation_sym|]; eauto].
 Qed.
 
+(* where the hypothesis of scrub_order_independent comes from, at a field of a union or interface type: the selection
+   the sanitizer leaves there asks for __typename on that very level, so every object comes back with it, whatever its
+   type (sanitizeSelectionSet as modelled in Plan/Sanitize.v and compared with the code by C02's check; since fix
+   a47d390 — before it a __typename inside one fragment suppressed the helper for all the other types) *)
+Theorem abstract_selections_carry_typename : forall tm sc ss t,
+  Sanitize.kind_of sc t <> Sanitize.KOther ->
+  Sanitize.has_direct (fst (Sanitize.add_scrub_fields tm sc ss t)) "__typename" = true.
+Proof. exact SanitizeProofs.abstract_selection_has_typename. Qed.
+
 Example c13_nonvacuous :
   clean ["u"] [("A", ["id"; "__typename"]); ("B", ["__typename"])]
         [("u", JArr [JObj [("__typename", JStr "A"); ("id", JStr "1"); ("x", JNum "1")]; JObj [("__typename", JStr "B")]])]
@@ -80,3 +90,4 @@ Print Assumptions error_set_order_independent.
 Print Assumptions batch_response_order_independent.
 Print Assumptions chunk_splice_order_independent.
 Print Assumptions level_calls_order_independent.
+Print Assumptions abstract_selections_carry_typename.
